@@ -111,8 +111,8 @@ S.spec_funcs["cleanups"] = _cleanup_count
 
 c = S.ext("signal.signal", cite="signal.signal(signum, handler)")
 c.param("signum", T.Obj).param("handler", T.Obj).event("signal", "signum", "handler").modifies()
-c = S.ext("multiprocessing.util.log_to_stderr", cite="util.log_to_stderr(level)")
-c.param("level", T.Obj, default=NONE).modifies()
+c = S.ext("multiprocessing.util.log_to_stderr", cite="util.log_to_stderr(level): logging configuration, not tracked")
+c.param("level", T.Obj, default=NONE).modifies().is_quiet()
 for nm in ("sys.stdin.close", "sys.stdout.close"):
     c = S.ext(nm, cite="file.close() of stdin/stdout in the tracker: errors are swallowed by the caller and not modelled")
     c.modifies().is_quiet()
@@ -143,7 +143,7 @@ c.ensures("main/ignores-sigint-and-sigterm-before-reading",
           "log_arg('signal', 0, 1) is obj(signal.SIG_IGN) and log_arg('signal', 1, 1) is obj(signal.SIG_IGN) and "
           "log_before('signal', 'open')", prop="C12")
 c.raises("main/only-a-failing-warning-or-open-escapes", "BaseException")
-c.modifies("G.cleanup_folder", "G.cleanup_file", "G.cleanup_semlock", "G.cleanup_seq", "G.fd_open")
+c.modifies("G.cleanup_folder", "G.cleanup_file", "G.cleanup_semlock", "G.cleanup_seq", "G.fd_open", "G.sig_blocked")
 c.assumes("A-warn", "A-kernel")
 
 i = M.invariant("main", 1, "while True:")
